@@ -84,8 +84,7 @@ func blockLinks(v interface {
 // covIssueVariants: how most applications issue tokens — through the helper methods of the capability they declared
 // (CapabilityParser.Delegate / Invoke / New) and invocation.Invoke — must give the token delegation.Delegate gives for
 // the same arguments (signing is deterministic for every signer of the cast); invocation.NewInvocation over the root
-// block reads the same token.  Returns the helper-issued token for half of the eligible worlds (it replaces the
-// world's token, so the validator is run on it) and a description of the first difference.
+// block reads the same token.  Returns a description of the first difference (the first result is reserved: nil).
 func covIssueVariants(w *World, sp *TokSpec, sg ucan.Signer, opts []delegation.Option, d delegation.Delegation) (delegation.Delegation, string) {
 	if w.ID%2 != 0 || len(sp.Caps) != 1 {
 		return nil, ""
@@ -123,14 +122,8 @@ func covIssueVariants(w *World, sp *TokSpec, sg ucan.Signer, opts []delegation.O
 		nv.Issuer().DID() != d.Issuer().DID() || nv.Audience().DID() != d.Audience().DID() {
 		return nil, fmt.Sprintf("invocation.NewInvocation() = another token (or an error: %v) than the one whose root block and blocks it was given", err)
 	}
-	switch w.ID % 8 {
-	case 0:
-		return d2, ""
-	case 2:
-		return iv, ""
-	case 4:
-		return nv, ""
-	}
+	// (the helper-issued tokens are byte-identical with identical block sequences; the world keeps its own token)
+	_, _, _ = d2, iv, nv
 	return nil, ""
 }
 
